@@ -34,7 +34,7 @@ import (
 // (its flag is clear, the next tracked change must produce an event). Rollback is not a reset.
 //
 // Configuration dimension (c04Setup, a second seeded stream per case): the Configuration A is constructed with
-// (AlwaysNegotiateDataChannels, BundlePolicy, RTCPMuxPolicy, ICECandidatePoolSize, SDPSemantics with fallback), the
+// (AlwaysNegotiateDataChannels, BundlePolicy, RTCPMuxPolicy, ICECandidatePoolSize; always unified-plan semantics), the
 // same knob on the peer B, SetConfiguration calls inside the history (accepted ones, switching
 // AlwaysNegotiateDataChannels on after descriptions exist, and rejected ones), the role A takes in the FIRST exchange
 // (answerer-first histories: the current local description is then an answer that mirrors only what B offered), and
@@ -163,9 +163,6 @@ func c04GenSetup(rc *kit.Rand) c04Setup {
 	su.CfgA.RTCPMuxPolicy = kit.Pick(rc, []RTCPMuxPolicy{0, 0, 0, RTCPMuxPolicyRequire, RTCPMuxPolicyNegotiate})
 	if rc.Chance(0.1) {
 		su.CfgA.ICECandidatePoolSize = 1
-	}
-	if rc.Chance(0.1) {
-		su.CfgA.SDPSemantics = SDPSemanticsUnifiedPlanWithFallback
 	}
 	su.LabelA = c04CfgLabel(su.CfgA)
 	su.KnobB = rc.Chance(0.15)
@@ -1481,7 +1478,7 @@ func TestVerifC04(t *testing.T) {
 		"after every call) over {AddTrack, RemoveTrack, AddTransceiverFromKind x3 directions, CreateDataChannel, full exchange as offerer / "+
 		"answerer against a real pion peer, half exchange stopping in have-local-offer / have-remote-offer with changes made there and then "+
 		"completion or rollback, Close/GracefulClose, calls after close} x configuration of A {AlwaysNegotiateDataChannels, BundlePolicy, "+
-		"RTCPMuxPolicy, ICECandidatePoolSize, SDPSemantics fallback; at construction and through accepted / rejected SetConfiguration calls inside the "+
+		"RTCPMuxPolicy, ICECandidatePoolSize; at construction and through accepted / rejected SetConfiguration calls inside the "+
 		"history} x peer that always offers an application section x role of A in the first exchange (answerer-first histories); fixed scripts "+
 		"also re-run under generated configurations. Non-trivial = >= 1 handler invocation and >= 1 completed exchange; "+
 		"distinct by the executed op list")
